@@ -14,6 +14,7 @@ import (
 
 type qDef struct {
 	Hc, Hm, Sc, Sm string
+	Hms, Sms       string
 	Flags          []string
 }
 
@@ -38,6 +39,9 @@ type qCtx struct {
 	Sm     string   `json:"sm"`
 	Uc     string   `json:"uc"`
 	Um     string   `json:"um"`
+	Hms    string   `json:"hms"`
+	Sms    string   `json:"sms"`
+	Ums    string   `json:"ums"`
 	Status string   `json:"status"`
 	Flags  []string `json:"flags"`
 	Due    bool     `json:"due"`
@@ -78,6 +82,7 @@ func projCtx(c rt.RuntimeContext) qCtx {
 		fl = []string{}
 	}
 	return qCtx{Hc: s64(h.Cpu), Hm: s64(h.Memory), Sc: s64(s.Cpu), Sm: s64(s.Memory), Uc: s64(u.Cpu), Um: s64(u.Memory),
+		Hms: s64(h.Millis), Sms: s64(s.Millis), Ums: s64(u.Millis),
 		Status: c.Status().String(), Flags: fl, Due: c.Due()}
 }
 
@@ -111,8 +116,8 @@ func isNilCtx(c rt.RuntimeContext) (isnil bool) {
 
 func toDef(d *qDef) rt.RuntimeContextDef {
 	def := rt.RuntimeContextDef{
-		HardLimits: rt.RuntimeResources{Cpu: u64(d.Hc), Memory: u64(d.Hm)},
-		SoftLimits: rt.RuntimeResources{Cpu: u64(d.Sc), Memory: u64(d.Sm)},
+		HardLimits: rt.RuntimeResources{Cpu: u64(d.Hc), Memory: u64(d.Hm), Millis: u64(d.Hms)},
+		SoftLimits: rt.RuntimeResources{Cpu: u64(d.Sc), Memory: u64(d.Sm), Millis: u64(d.Sms)},
 	}
 	for _, f := range d.Flags {
 		def.RequiredFlags, _ = def.RequiredFlags.AddFlagWithName(f)
@@ -144,6 +149,7 @@ type qRun struct {
 	depth int
 	last  qLast
 	snap  *qObs
+	clk   uint64 // the virtual clock (ms) read by the runtime context manager through the verif hook
 }
 
 func (q *qRun) snapshot() {
@@ -159,9 +165,13 @@ func (q *qRun) body() error {
 		op := q.ops[q.i]
 		q.i++
 		switch op.Op {
+		case "tick":
+			q.clk += u64(op.N)
+			q.last = qLast{Op: "tick", Pan: "none"}
 		case "push":
-			q.r.PushContext(toDef(op.Def))
-			q.last = qLast{Op: "push"}
+			kind, val := catch(func() { q.r.PushContext(toDef(op.Def)) })
+			q.last = qLast{Op: "push", Pan: kind}
+			q.rethrow(kind, val)
 		case "pop":
 			var ret rt.RuntimeContext
 			kind, val := catch(func() { ret = q.r.PopContext() })
@@ -194,15 +204,16 @@ func (q *qRun) body() error {
 			q.last = qLast{Op: op.Op, Pan: kind}
 			q.rethrow(kind, val)
 		case "begin":
-			q.last = qLast{Op: "begin"}
+			q.last = qLast{Op: "begin", Pan: "none"}
 			q.depth++
-			returned := false
+			returned, started := false, false
 			var (
 				ctx rt.RuntimeContext
 				err error
 			)
 			kind, val := catch(func() {
 				ctx, err = q.t.CallContext(toDef(op.Def), func() error {
+					started = true
 					e := q.body()
 					returned = true
 					return e
@@ -215,6 +226,8 @@ func (q *qRun) body() error {
 			name := "unwound"
 			if returned {
 				name = "end"
+			} else if !started {
+				name = "begin" // the termination left PushContext: no context was pushed, f never ran
 			}
 			if kind != "none" {
 				q.last = qLast{Op: name, Pan: kind}
@@ -262,6 +275,7 @@ func quotaReplay(args []string) int {
 		}
 		r := rt.New(nil)
 		q := &qRun{r: r, t: r.MainThread(), ops: c.H}
+		setClock(func() uint64 { return q.clk })
 		kind, val := catch(func() { q.body() })
 		obs := qObs{ID: c.ID}
 		if q.snap != nil {
